@@ -150,13 +150,14 @@ Definition compile_ni (d : desc) (g : graph) (ni : node) : res cni :=
                        if ep_is_sbr e then mapM (fun r => set_idx r (x * n + y)) ranges0 else Ok ranges0
                    | _, _ => Err "Invalid endpoint array description"
                    end;
+      (* a network interface has one port towards the network: exactly one link in each direction *)
       do ml <- match link_edges_from g (n_name ni) with
-               | e1 :: _ => Ok (e_src e1, e_dst e1)
-               | [] => Err "IndexError: network interface without outgoing link"
+               | [e1] => Ok (e_src e1, e_dst e1)
+               | _ => Err "ValueError: endpoint must be connected to exactly one router"
                end;
       do sl <- match link_edges_to g (n_name ni) with
-               | e1 :: _ => Ok (e_src e1, e_dst e1)
-               | [] => Err "IndexError: network interface without incoming link"
+               | [e1] => Ok (e_src e1, e_dst e1)
+               | _ => Err "ValueError: endpoint must be connected to exactly one router"
                end;
       do mb <- mk_buses d e "input" (ep_mgr e) (n_arr ni);
       do sb <- mk_buses d e "output" (ep_sbr e) (n_arr ni);
